@@ -13,7 +13,9 @@
      (4 hdr mode command arg)        request bound to a recording endpoint; mode 0 ReplyWith
                                      (command, body arg), 1 RefuseWith(command, ec), 2 Refuse(ec)
                                      4 ReplyWith(command, gov arg: any Go value SetBody supports)
-        observed (1 nsent hdr body errno rBytes) | (0) panicked
+        observed (1 nsent hdr body errno rBytes later) | (0) panicked
+                                     later = (1 (hdr body errno)) of the same reply after the request
+                                     object was Reset() and refilled (AddRefers, SetBody, SetSeq ...)
      (6 flg gov)                     packet.New(7, 1, flg, gov), then every accessor
         observed as scenario 0
      (8 codec thr hdr what)          the same packet object (numeric / nil / proto body or error
@@ -349,7 +351,7 @@ Definition check_hold (a b c : packet * Z * option Z) (wa wb wc : list Z)
 
 (* ---- scenario 4: reply / refuse ----------------------------------------------------- *)
 Definition check_reply (h : hdr) (mode command : Z) (argb : body) (argec : Z)
-           (obs : option (Z * hdr * option body * Z * option (list Z))) : verdict :=
+           (obs : option (Z * hdr * option body * Z * option (list Z) * option (hdr * option body * Z))) : verdict :=
   let p := pkt_of_hdr h BNil (Some 1) in
   (* modes 2 and 3 consult the message registry: its answer travels in the command slot *)
   let m := if mode =? 0 then reply_with p command argb
@@ -360,7 +362,16 @@ Definition check_reply (h : hdr) (mode command : Z) (argb : body) (argec : Z)
                   else if command =? 0 then hcmd h else command in
   match m, obs with
   | None, None => VOk
-  | Some (e, q), Some (nsent, oh, ob, oerrno, orb) =>
+  | Some (e, q), Some (nsent, oh, ob, oerrno, orb, olater) =>
+      (* the reply as it is encoded later, after the request object has been recycled: still what
+         the request was when the reply was made *)
+      let unchanged :=
+        match olater with
+        | Some (lh, lb, lerrno) =>
+            hdr_eqb oh lh && (oerrno =? lerrno) &&
+            match ob, lb with Some b1, Some b2 => body_eqb b1 b2 | None, None => true | _, _ => false end
+        | None => false
+        end in
       let corr :=
         vjoin (check_that ((e =? 1) && (nsent =? 1)) (VMismatch 11))
        (vjoin (check_that (hdr_eqb (hdr_of_pkt q) oh) (VMismatch 12))
@@ -376,7 +387,7 @@ Definition check_reply (h : hdr) (mode command : Z) (argb : body) (argec : Z)
         then check_that (copied && (hcmd oh =? want_cmd) && obody_eqb argb ob) (VPropFail 6)
         else check_that (copied && (hcmd oh =? want_cmd) &&
                          has_flag (hflg oh) root_PFlagError && (oerrno =? argec)) (VPropFail 7) in
-      vjoin (vjoin prop wired) corr
+      vjoin (vjoin (vjoin prop (check_that unchanged (if (mode =? 0) || (mode =? 3) then VPropFail 6 else VPropFail 7))) wired) corr
   | _, _ => VMismatch 11
   end.
 
@@ -483,10 +494,19 @@ Definition check (c : sx) : verdict :=
           let obs' :=
             match obs with
             | SList [SInt 0] => Some None
-            | SList [SInt 1; SInt nsent; oh; ob; SInt oerrno; orb] =>
-                match hdr_of oh, body_of ob, rbytes_of orb with
-                | Some oh, Some ob, Some orb => Some (Some (nsent, oh, ob, oerrno, orb))
-                | _, _, _ => None
+            | SList [SInt 1; SInt nsent; oh; ob; SInt oerrno; orb; later] =>
+                let olater := match later with
+                              | SList [SInt 1; SList [lh; lb; SInt lerrno]] =>
+                                  match hdr_of lh, body_of lb with
+                                  | Some lh, Some lb => Some (Some (lh, lb, lerrno))
+                                  | _, _ => None
+                                  end
+                              | SList [SInt 2] => Some None
+                              | _ => None
+                              end in
+                match hdr_of oh, body_of ob, rbytes_of orb, olater with
+                | Some oh, Some ob, Some orb, Some olater => Some (Some (nsent, oh, ob, oerrno, orb, olater))
+                | _, _, _, _ => None
                 end
             | _ => None
             end in
